@@ -13,6 +13,7 @@ pub mod c10;
 pub mod c11;
 pub mod c12;
 pub mod c13;
+pub mod selftest;
 pub mod store_h;
 pub mod tmodel;
 pub mod c08;
@@ -28,6 +29,11 @@ pub mod c19;
 
 pub fn dispatch(id: &str, tier: Tier, replay: Option<&str>) -> i32 {
     let _ = replay;
+    if id == "SELFTEST" {
+        let v = selftest::channel_shim_selftest(tier);
+        println!("{}", serde_json::to_string_pretty(&v).unwrap());
+        return 0;
+    }
     if id == "BENCH" {
         use crate::sched::in_shuttle;
         use similari::prelude::*;
